@@ -461,3 +461,190 @@ def same_molecule(g1, g2):
     if len(g1) != len(g2) or g1.number_of_edges() != g2.number_of_edges():
         return False
     return nx.is_isomorphic(g1, g2, node_match=nm, edge_match=em)
+
+
+# ------------------------------------------------------------------------------ layered strings (C06)
+def render_coarse_fragment(rng, names, nodes, edges, desc):
+    """CGsmiles fragment text (no braces) over `nodes` (ids) named names[id]; edges {(i,j): order};
+    desc {id: [(kind+label, order)]} written after the node (after its ring digits).
+    Standard DFS rendering (never '))'), single-digit ring markers only."""
+    g = nx.Graph()
+    g.add_nodes_from(nodes)
+    for (i, j), o in edges.items():
+        g.add_edge(i, j, order=o)
+    start = rng.choice(list(nodes))
+    seen = set()
+    children = {a: [] for a in nodes}
+    rings = []
+    order_list = []
+
+    def dfs(a, parent):
+        seen.add(a)
+        order_list.append(a)
+        nb = sorted(g[a])
+        rng.shuffle(nb)
+        for b in nb:
+            if b == parent:
+                continue
+            if b in seen:
+                if (b, a) not in rings and (a, b) not in rings:
+                    rings.append((b, a))
+                continue
+            children[a].append(b)
+            dfs(b, a)
+    dfs(start, None)
+    if len(order_list) != len(nodes):
+        return None, None
+    pos = {a: i for i, a in enumerate(order_list)}
+    free = list(range(1, 10))
+    marker = {}
+    digits = {a: '' for a in nodes}
+    for a in order_list:
+        for rb in [r for r in rings if max(r, key=lambda x: pos[x]) == a]:
+            mk = marker.pop(rb)
+            digits[a] += str(mk)
+            free.append(mk)
+            free.sort()
+        for rb in [r for r in rings if min(r, key=lambda x: pos[x]) == a]:
+            if not free:
+                return None, None
+            mk = free.pop(0)
+            marker[rb] = mk
+            digits[a] += BASE_SYM[g.edges[rb]['order']] + str(mk)
+
+    def emit(a):
+        t = '[#%s]' % names[a] + digits[a]
+        for nm, o in desc.get(a, []):
+            t += BASE_SYM[o] + '[' + nm + ']'
+        ch = children[a]
+        for k, c in enumerate(ch):
+            sym = BASE_SYM[g.edges[a, c]['order']]
+            if k < len(ch) - 1:
+                t += sym + '(' + emit(c) + ')'
+            else:
+                t += sym + emit(c)
+        return t
+    return emit(start), order_list
+
+
+def group_blocks(rng, graph, kmax):
+    """random partition of graph's nodes into connected blocks"""
+    nodes = list(graph)
+    k = rng.randint(1, min(kmax, len(nodes)))
+    seeds = rng.sample(nodes, k)
+    owner = {s: i for i, s in enumerate(seeds)}
+    changed = True
+    while len(owner) < len(nodes) and changed:
+        changed = False
+        order = list(owner)
+        rng.shuffle(order)
+        for a in order:
+            nb = [b for b in graph[a] if b not in owner]
+            if nb:
+                owner[rng.choice(nb)] = owner[a]
+                changed = True
+                break
+    blocks = {}
+    for a, i in owner.items():
+        blocks.setdefault(i, []).append(a)
+    return list(blocks.values())
+
+
+def layered_case(rng, nmax=9, n_intermediate=None, coarse_last=False):
+    """One C06 input.  Levels: atoms < parts F (level 0 blocks) < groups (level 1) < ... ; returns the
+    layered string (base + intermediate coarse fragment levels + last level) and the flat two-level string."""
+    m = rand_molecule(rng, nmax=nmax)
+    parts = rand_partition(rng, m, kmax=rng.choice([3, 4, 6]))
+    cuts, owner = cuts_of(m, parts)
+    if len(cuts) > len(LABELS):
+        return None
+    # level-0 graph over parts
+    g0 = nx.Graph()
+    g0.add_nodes_from(range(len(parts)))
+    for a, b in cuts:
+        i, j = owner[a], owner[b]
+        if g0.has_edge(i, j):
+            g0.edges[i, j]['order'] += 1
+        else:
+            g0.add_edge(i, j, order=1)
+    if any(d['order'] > 4 for _, _, d in g0.edges(data=True)):
+        return None
+    n_int = n_intermediate if n_intermediate is not None else rng.randint(1, 3)
+    label_iter = iter(rng.sample(LABELS, len(LABELS)) + ['L%d' % i for i in range(200)])
+    # atom-level descriptors (as in cut_case)
+    desc = {}
+    for (a, b) in cuts:
+        lab = next(label_iter)
+        o = m.edges[a, b]['order']
+        oo = 1 if o == 1.5 else o
+        if rng.random() < 0.5:
+            da, db = '$' + lab, '$' + lab
+        else:
+            da, db = ('>' + lab, '<' + lab) if rng.random() < 0.5 else ('<' + lab, '>' + lab)
+        desc.setdefault(a, []).append((da, oo))
+        desc.setdefault(b, []).append((db, oo))
+    part_names = {i: 'F%d' % i for i in range(len(parts))}
+    last_defs = []
+    for i, p in enumerate(parts):
+        t, _ = render_fragment(rng, m, p, desc, ring_style='low', desc_pos=rng.choice(['after', 'before']))
+        last_defs.append('#%s=%s' % (part_names[i], t))
+    # intermediate levels: graphs[j] over blocks of level j; names[j]
+    graphs = [g0]
+    names = [part_names]
+    level_defs = []      # fragment definitions of level j (blocks of level j written over level j-1 nodes), j >= 1
+    for j in range(1, n_int + 1):
+        gprev = graphs[-1]
+        blocks = group_blocks(rng, gprev, kmax=max(1, len(gprev) - 1) if len(gprev) > 1 else 1)
+        bowner = {a: bi for bi, blk in enumerate(blocks) for a in blk}
+        gj = nx.Graph()
+        gj.add_nodes_from(range(len(blocks)))
+        cdesc = {}
+        for a, b, d in gprev.edges(data=True):
+            if bowner[a] != bowner[b]:
+                i, k = bowner[a], bowner[b]
+                if gj.has_edge(i, k):
+                    gj.edges[i, k]['order'] += 1
+                else:
+                    gj.add_edge(i, k, order=1)
+                lab = next(label_iter)
+                if rng.random() < 0.5:
+                    da, db = '$' + lab, '$' + lab
+                else:
+                    da, db = '>' + lab, '<' + lab
+                cdesc.setdefault(a, []).append((da, d['order']))
+                cdesc.setdefault(b, []).append((db, d['order']))
+        if any(d['order'] > 4 for _, _, d in gj.edges(data=True)):
+            return None
+        nm = {bi: 'G%dx%d' % (j, bi) for bi in range(len(blocks))}
+        defs = []
+        for bi, blk in enumerate(blocks):
+            sub_edges = {(a, b): d['order'] for a, b, d in gprev.edges(data=True) if bowner[a] == bi and bowner[b] == bi}
+            t, _ = render_coarse_fragment(rng, names[-1], blk, sub_edges, cdesc)
+            if t is None:
+                return None
+            defs.append('#%s=%s' % (nm[bi], t))
+        level_defs.append(defs)
+        graphs.append(gj)
+        names.append(nm)
+    top = graphs[-1]
+    base, _ = render_base(rng, [names[-1][i] for i in range(len(top))],
+                          {(a, b): d['order'] for a, b, d in top.edges(data=True)})
+    flat_base, _ = render_base(rng, [part_names[i] for i in range(len(parts))],
+                               {(a, b): d['order'] for a, b, d in g0.edges(data=True)})
+
+    def block(defs):
+        defs = list(defs)
+        rng.shuffle(defs)
+        return '{' + ','.join(defs) + '}'
+    layers = [block(d) for d in reversed(level_defs)]
+    if coarse_last:
+        layered = base + '.' + '.'.join(layers)
+        flat = flat_base
+        expect = {'nodes': [[i, part_names[i]] for i in range(len(parts))],
+                  'edges': [[a, b, d['order']] for a, b, d in g0.edges(data=True)]}
+        return {'layered': layered, 'flat': flat, 'coarse_last': True, 'levels': n_int, 'expect_cg': expect,
+                'nparts': len(parts)}
+    layered = base + '.' + '.'.join(layers + [block(last_defs)])
+    flat = flat_base + '.' + block(last_defs)
+    return {'layered': layered, 'flat': flat, 'coarse_last': False, 'levels': n_int + 1, 'mol': mol_dump(m),
+            'nparts': len(parts)}
